@@ -68,6 +68,15 @@ def run(ctx) -> None:
     r02_5(ctx)
     r02_6(ctx)
     r02_7(ctx)
+    # "raises what the builtin raises": no handler of an aggregation can turn an error raised by the
+    # key function, a comparison or the source into a result (C06's handler census, shared)
+    from . import c06
+    from .common import Relabel, real_units
+    ctx.rule("R02.9", "no except handler can intercept an exception raised by user code (handler census of C06, shared)")
+    sub_ctx = Relabel(ctx, "R02.9", only=("R06.1",))
+    for u in real_units(ctx):
+        if u.module.short in ("builtins", "heapq", "functools"):
+            c06._census(sub_ctx, u)
     from . import tooltables
     tooltables.aggregate_tables(ctx, "R02.8")
     ctx.floor("agg_cells_decided", 300)
